@@ -14,6 +14,7 @@ import (
 	"verifharness/gen"
 	"verifharness/mc"
 	"verifharness/props/reg"
+	"verifharness/sched"
 )
 
 func init() { reg.Register(&reg.Prop{ID: "C07", Run: Run, Replay: Replay}) }
@@ -518,6 +519,9 @@ func Run(r *mc.Run) {
 	inter = append(inter, gen.DDoc{repParas[0], repParas[3]}, gen.DDoc{repParas[4], repParas[1], repParas[6]}, gen.DDoc{repParas[2], repParas[2]})
 	interleavedScenario(r, inter)
 
+	// the same entry points called at the same time on independent inputs: every schedule of small thread programs (instrumented build)
+	sched.Explore(r, "concurrent-calls", ConcurrentPrograms())
+
 	// long physical lines: around the 4096-byte default buffer of bufio (and its multiples) and far beyond
 	lens := []int{4090, 4093, 4094, 4095, 4096, 4097, 4098, 8190, 8191, 8192, 8193, 20000}
 	if r.Quick() {
@@ -627,6 +631,9 @@ func Run(r *mc.Run) {
 }
 
 func Replay(scenario string, raw json.RawMessage) []*mc.Violation {
+	if scenario == "concurrent-calls" {
+		return sched.Replay(scenario, ConcurrentPrograms(), raw)
+	}
 	if scenario == "invariant-all-strings" {
 		var in RawIn
 		if mc.UnmarshalInput(raw, &in) == nil {
